@@ -34,7 +34,8 @@ def cases(draw, tier):
                 members = prev[: max(1, len(prev) // 2)]
             blocks.append({'name': f'blk{b}', 'gates': members,
                            'outputs': members[-1:], 'explicit_inputs': draw(st.booleans())})
-    return {'nl': nl, 'route': draw(gen.routes(nl)), 'blocks': blocks, 'uuid_seed': draw(st.integers(0, 2 ** 20))}
+    return {'nl': nl, 'route': draw(gen.routes(nl)), 'blocks': blocks, 'uuid_seed': draw(st.integers(0, 2 ** 20)),
+            'entry': draw(st.sampled_from(['into_bench', 'into_bench', 'into_bench', 'convert_gate']))}
 
 
 def verify(c, ret, nl, blocks_before):
@@ -117,9 +118,25 @@ def check_bench(case):
             except core.CirboError:
                 return {'nt': False, 'cls': {'zero_inputs_constant_rejected'}}
             raise Violation('zero_input_constant', 'conversion of a constant without any input did not raise')
-        ret = c.into_bench()
+        ret = None
+        if case.get('entry') == 'convert_gate' and n > 0:
+            # the public per-gate function, called gate by gate with Gate values taken from an equal twin circuit
+            try:
+                from cirbo.core.circuit.converters import convert_gate
+            except ImportError:
+                convert_gate = None
+            if convert_gate is not None:
+                import copy
+
+                twin = copy.copy(c)
+                for g in list(twin.gates.values()):
+                    convert_gate(g, c)
+                ret = c
+        if ret is None:
+            ret = c.into_bench()
     n_rewritten = verify(c, ret, nl, blocks_before)
     cls = gen.classify(nl)
+    cls.add('entry:' + (case.get('entry') or 'into_bench'))
     if case['blocks']:
         cls.add('blocks')
     if any(typ[l] in ('GT', 'LT', 'GEQ', 'LEQ', 'LIFF', 'RIFF', 'LNOT', 'RNOT') and len(set(ops)) == 1
@@ -252,7 +269,7 @@ SPEC = {
     'id': 'C14',
     'rule': ('Hypothesis netlists (0-6 inputs, all types with comparison / L*/R* / constant gates weighted up, identical '
              'operands, rewritten gates as outputs and as members of generated possibly nested / overlapping blocks) -> '
-             'into_bench() and into_graphviz_digraph(as_bench=True). Oracle: inputs/outputs lists and per-gate reference '
+             'into_bench() (or the public per-gate convert_gate called with equal Gate values of a twin circuit) and into_graphviz_digraph(as_bench=True). Oracle: inputs/outputs lists and per-gate reference '
              'tables unchanged, only {INPUT,NOT,AND,OR,NAND,NOR,XOR,NXOR,IFF} remain, wellformed() (users multiset etc.), '
              'every new label is a NOT used by exactly one rewritten gate and is in exactly the blocks containing that '
              'gate, zero-input circuits with a constant raise. Sub-check reconvert: circuits with a history - converted once, then '
